@@ -9,7 +9,7 @@ ASSUMPTIONS = {
     "A3": "A3 [T]::contains(x) <=> exists i. s[i].eq_spec(x) (assume_specification)",
     "A4": "A4 vstd HashMap model with obeys_key_model::<String>() (string_keys_ok())",
     "A5": "A5 quick_xml event model: Reader::read_event_into pops the head of a finite ghost sequence rd_pending(reader) of abstract events / errors and yields Eof forever afterwards; BytesStart::name/attributes, Attributes::next, BytesText/CData::into_inner, Reader::buffer_position are tied to the same ghost values; how bytes become events is quick_xml's business and is NOT verified",
-    "A6": "A6 trusted leaves of the repository (external_body, contract assumed, body is one std call Verus cannot specify): parser::to_str (from_utf8), Element::new (into_iter().map(closure).collect(): vstd's Map adapter is prophetic, nothing ties it to the closure), Element::get_child, Element::get_child_mut (iter().find(closure): vstd's find specification is too weak and cannot be replaced). Element::remove_child and Element::merge_attr are no longer in this list: both are verified (A10; E2-g)",
+    "A6": "A6 trusted leaves of the repository (external_body, contract assumed, body is one std call Verus cannot specify): parser::to_str (from_utf8), Element::new (into_iter().map(closure).collect(): vstd's Map adapter is prophetic, nothing ties its items to the closure), Element::get_child_mut (iter_mut().find(closure): vstd's find gives no frame for the &mut items it consumes and drops, so `nothing else changes` cannot be derived). Element::get_child, Element::remove_child and Element::merge_attr are no longer in this list: they are verified, closures included (vstd's find; A10; E2-g, E2-h)",
     "A10": "A10 std Iterator::position on core::slice::Iter (assume_specification written from the std documentation; vstd has none): Some(i) = the closure's postcondition holds with `true` for item i and with `false` for every item before it; None = with `false` for every remaining item. The closure inside Element::remove_child carries a machine-checked postcondition (b == (c.val().name == *name))",
         "A9": "A9 Rust's allocation limit: a Vec of a non-zero-sized element type (Necessity<_>, String, u8) has at most isize::MAX elements (broadcast axioms group_vec_len_bounds); without it harmless size arithmetic such as Vec::with_capacity(a.len() + b.len()) would be flagged",
     "A8": "A8 renderer frame: to_serde_struct is an unverified deterministic function of the tree (the contracts stop at the Element tree; the rendered text is outside the verifier)",
@@ -30,7 +30,7 @@ PROPS = {
         "units": [r"^xml_schema_generator::element::", r"^xml_schema_generator::necessity::(Necessity::|impl)", r"^xml_schema_generator::vspec::tree::", r"^xml_schema_generator::vspec::c16::"],
         "modules": ["element", "necessity", "vspec::tree", "vspec::c16", "vspec::nec", "vspec::boundary"],
         "assumes": ["A1", "A2", "A3", "A6", "A9", "A10", "H", "M", "U", "V"],
-        "claim": "tree half: every public construction operation refines a spec operation apply_op on the children list and preserves unique child names (also deeply); theorem_c16_all_sequences: uniqueness holds after EVERY finite sequence of operations; add-existing is a no-op, mark-optional preserves the subtree; removal (remove_child) and merge_attr are verified (std position assumed, A10), lookup contracts (get_child, get_child_mut) are assumed leaves (A6); the rendering sentence of C16 is covered by the bounded stand-in only",
+        "claim": "tree half: every public construction operation refines a spec operation apply_op on the children list and preserves unique child names (also deeply); theorem_c16_all_sequences: uniqueness holds after EVERY finite sequence of operations; add-existing is a no-op, mark-optional preserves the subtree; lookup (get_child, vstd's find), removal (remove_child, std position assumed: A10) and merge_attr are verified, closures included; the contract of get_child_mut is an assumed leaf (A6); the rendering sentence of C16 is covered by the bounded stand-in only",
     },
     "C03": {"units": ALL_PARSER, "assumes": ["A1", "A2", "A3", "A4", "A5", "A6", "A8", "A9", "A10", "M", "U", "V"],
             "claim": "the tree returned by the parser is exactly g_build (the inference algorithm as a spec function) of the abstract event stream (T1)"},
